@@ -22,6 +22,7 @@ type btWorld struct {
 	famCache   map[string][]string
 	ambiguous  int64
 	last       bt.Resp // the implementation's response to the last step
+	desync     bool
 }
 
 var btDirSeq int
@@ -66,6 +67,9 @@ func (w *btWorld) Step(o *bt.Op, check bool) (string, string) {
 		w.famCache = map[string][]string{}
 	}
 	if !check {
+		if want.Ambiguous != "" && o.Kind != "ReadRows" && o.Kind != "SampleRowKeys" {
+			w.desync = true
+		}
 		return "", ""
 	}
 	if got.Panic != "" {
@@ -73,6 +77,12 @@ func (w *btWorld) Step(o *bt.Op, check bool) (string, string) {
 	}
 	if want.Ambiguous != "" {
 		w.ambiguous++
+		if o.Kind != "ReadRows" && o.Kind != "SampleRowKeys" {
+			// the model cannot follow a state-changing request whose answer the documented
+			// semantics leave open: the case is skipped and the world abandoned
+			w.desync = true
+			return "", "ambiguous"
+		}
 	}
 	if m := bt.Compare(got, want); m != "" {
 		return "response of " + o.String() + ": " + m, "resp:" + firstWord(m)
@@ -136,6 +146,8 @@ func (w *btWorld) Hash() uint64 { return fw.Hash(w.model.StateString(), w.drv.Du
 
 // ---- generic bounded-exhaustive sequence exploration ------------------------------------------
 
+const btShardDepth = 2
+
 type btSeq struct {
 	ID       string
 	Engine   string
@@ -156,6 +168,9 @@ type seqCase struct {
 	Ops    []bt.Op `json:"ops"`
 }
 
+// lastRunResp is the implementation's response to the last request of the last successful runSeq.
+var lastRunResp bt.Resp
+
 func defaultTag(o *bt.Op) string { return o.Kind }
 
 // runSeq executes setup + ops on a fresh instance, checking only the last op (all earlier ones
@@ -169,10 +184,16 @@ func runSeq(c *fw.Ctx, engine string, setup, ops []bt.Op, checkAll bool) (mismat
 		}
 	}
 	for i := range ops {
-		if m, cl := w.Step(&ops[i], checkAll || i == len(ops)-1); m != "" {
+		m, cl := w.Step(&ops[i], checkAll || i == len(ops)-1)
+		if m != "" {
 			return m, cl, i, 0
 		}
+		if w.desync {
+			c.Note("ambiguous_skipped", 1)
+			return "", "ambiguous", i, 0
+		}
 	}
+	lastRunResp = w.last
 	return "", "", -1, w.Hash()
 }
 
@@ -208,18 +229,20 @@ func (b *btSeq) Run(c *fw.Ctx) {
 		tag = defaultTag
 	}
 	frontier := [][]int{{}}
+	// Levels up to shardDepth are executed by every shard (they are tiny) but recorded only by
+	// shard 0; the frontier after shardDepth is dealt round-robin to the shards.
+	const shardDepth = btShardDepth
+	record := func(depth int) bool { return depth > shardDepth || c.Shard == 0 }
 	if b.AtState != nil {
-		b.AtState(nil, 0)
+		b.AtState(nil, 0) // levels <= btShardDepth: called in every shard; the callee splits its work with c.Mine
 	}
 	seen := map[uint64]bool{}
 	completed := 0
 	for depth := 1; depth <= b.Depth; depth++ {
 		var next [][]int
+		rec := record(depth)
 		for _, seq := range frontier {
 			for k := range b.Alphabet {
-				if depth == 1 && !c.Mine(int64(k)) {
-					continue
-				}
 				if c.Expired() {
 					c.Incomplete(fmt.Sprintf("time budget reached at depth %d (depth %d complete)", depth, completed))
 					c.Bound(b.Engine+"_depth_completed", completed)
@@ -228,35 +251,42 @@ func (b *btSeq) Run(c *fw.Ctx) {
 				ns := append(append([]int(nil), seq...), k)
 				ops := b.ops(ns)
 				m, cl, at, h := runSeq(c, b.Engine, b.Setup, ops, false)
-				c.Eval(1)
-				c.Trace(1)
-				c.Trans(1)
+				if rec {
+					c.Eval(1)
+					c.Trace(1)
+					c.Trans(1)
+				}
 				if m != "" {
-					t := "setup"
-					if at >= 0 {
-						t = tag(&ops[at])
+					if rec {
+						t := "setup"
+						if at >= 0 {
+							t = tag(&ops[at])
+						}
+						sig := fmt.Sprintf("%s:%s:%s:%s", b.ID, b.Engine, cl, t)
+						sc := seqCase{Engine: b.Engine, Setup: b.Setup, Ops: ops}
+						c.Violate(sig, m+"\n  sequence: "+bt.OpsString(ops), sc, func() string {
+							s, _ := replaySeq(c, b.ID, sc, tag)
+							return s
+						})
+						c.Outcome("violation:" + cl)
 					}
-					sig := fmt.Sprintf("%s:%s:%s:%s", b.ID, b.Engine, cl, t)
-					sc := seqCase{Engine: b.Engine, Setup: b.Setup, Ops: ops}
-					c.Violate(sig, m+"\n  sequence: "+bt.OpsString(ops), sc, func() string {
-						s, _ := replaySeq(c, b.ID, sc, tag)
-						return s
-					})
-					c.Outcome("violation:" + cl)
 					continue // do not extend a sequence whose last step already disagreed
 				}
-				c.Outcome("ok:" + b.Alphabet[k].Kind)
-				isNew := c.State(h)
+				if cl == "ambiguous" {
+					continue
+				}
+				if rec {
+					c.Outcome("ok:" + b.Alphabet[k].Kind)
+					c.State(h)
+				}
 				if b.Dedup {
 					if seen[h] {
 						continue
 					}
 					seen[h] = true
 				}
-				if isNew || !b.Dedup {
-					if len(ns) <= 2 {
-						c.Sample(map[string]interface{}{"engine": b.Engine, "sequence": bt.OpsString(ops)})
-					}
+				if rec && len(ns) <= 2 {
+					c.Sample(map[string]interface{}{"engine": b.Engine, "sequence": bt.OpsString(ops)})
 				}
 				if b.AtState != nil {
 					b.AtState(ns, depth)
@@ -265,6 +295,15 @@ func (b *btSeq) Run(c *fw.Ctx) {
 					next = append(next, ns)
 				}
 			}
+		}
+		if depth == shardDepth && c.N > 1 {
+			var mine [][]int
+			for i, s := range next {
+				if i%c.N == c.Shard {
+					mine = append(mine, s)
+				}
+			}
+			next = mine
 		}
 		frontier = next
 		completed = depth
